@@ -7,6 +7,7 @@ import Mathlib.Algebra.Order.Field.Rat
 import DL.Model.Print
 import DL.Lemmas.FmtG7
 import DL.Lemmas.FmtG7Str
+import DL.Lemmas.FmtG7Mono
 namespace DL
 
 def leB (asc : Bool) (a b : Line) : Bool := if asc then decide (a.bf ≤ b.bf) else decide (b.bf ≤ a.bf)
@@ -200,6 +201,21 @@ theorem C16_layout_exact (n : Nat) (e : Int) (hlo : 10 ^ 6 ≤ n) (hhi : n < 10 
     numValue (renderSig7 n e) = some ((n : Rat) * (10 : Rat) ^ (e - 6)) := by
   have := renderSig7_value n e hlo hhi false (renderSig7 n e) (by simp [sgnPre])
   simpa using this
+
+/-- for a positive value the text shown reads back as `shownVal`, the seven digits at their exponent -/
+theorem C16_shown_value (x : Rat) (hx : 0 < x) : numValue (fmtG7 x) = some (shownVal x) := by
+  obtain ⟨hlo, hhi, _⟩ := sig7_spec x hx
+  have hne : (x == 0) = false := by
+    simp only [beq_eq_false_iff_ne, ne_eq]; exact hx.ne'
+  have := renderSig7_value (sig7 x).1 (sig7 x).2 hlo hhi false (fmtG7 x)
+    (by simp [fmtG7, not_lt.mpr hx.le, fmtG7Pos, hne, sgnPre])
+  simpa [shownVal] using this
+
+/-- rounding to seven significant digits is monotone: of two positive values the larger one is shown as a text that reads back
+    as the larger (or an equal) number - rows printed in the order of their values are in the order of the numbers shown -/
+theorem C16_shown_monotone (x y : Rat) (hx : 0 < x) (hxy : x ≤ y) :
+    ∃ vx vy : Rat, numValue (fmtG7 x) = some vx ∧ numValue (fmtG7 y) = some vy ∧ vx ≤ vy :=
+  ⟨shownVal x, shownVal y, C16_shown_value x hx, C16_shown_value y (lt_of_lt_of_le hx hxy), shownVal_mono x y hx hxy⟩
 
 /-- non-vacuity: the read-back of a shown text -/
 example : numValue (fmtG7 (1 / 3)) = some (3333333 / 10000000) := by decide +kernel
